@@ -47,6 +47,35 @@ def S(reversal: bool) -> int:
     return -1 if reversal else 1
 
 
+FINE_UNITS = ("s", "ms", "us", "ns", "ps", "fs", "as")
+
+
+def instant_resolution(prog: Program, rep: Report, rule: str) -> None:
+    """Every conversion of an instant to an explicit datetime unit keeps the clock's resolution (seconds):
+    `np.datetime64(x, "m")`, `.astype("M8[h]")` would truncate instants (forcing frames, start / stop, restart
+    time) before they are mapped to steps, and a set-up shifted by whole steps would no longer be the same
+    set-up shifted."""
+    n = 0
+    for fi in prog.all_functions():
+        if fi.module.name.startswith(("ibms", "analytical")) or fi.module.name in ("ROMS2",):
+            continue
+        for c in walk_no_nested(fi.node):
+            unit = None
+            what = None
+            if isinstance(c, ast.Call) and unparse(c.func) in ("np.datetime64", "numpy.datetime64") and len(c.args) == 2 and isinstance(c.args[1], ast.Constant) and isinstance(c.args[1].value, str):
+                unit, what = c.args[1].value, short(c, 70)
+            elif isinstance(c, ast.Call) and isinstance(c.func, ast.Attribute) and c.func.attr == "astype" and c.args and isinstance(c.args[0], ast.Constant) and isinstance(c.args[0].value, str):
+                m = re.fullmatch(r"(?:M8|datetime64)\[(\w+)\]", c.args[0].value.strip())
+                if m:
+                    unit, what = m.group(1), short(c, 70)
+            if unit is None:
+                continue
+            n += 1
+            rep.check(rule, fi.qual, what, unit in FINE_UNITS, what_bad=f"an instant is converted to unit '{unit}', coarser than the clock's seconds: times are truncated before they are compared or mapped to steps", what_ok=f"unit '{unit}'", loc=fi.loc(c))
+    if n < 4:
+        raise AnalysisError(f"only {n} explicit datetime unit conversions found (7 confirmed by hand)")
+
+
 def run(prog: Program, rep: Report, tier: str) -> None:
     rep.level = "other"
     rep.explanation = (
@@ -243,6 +272,9 @@ def run(prog: Program, rep: Report, tier: str) -> None:
     from ..share import share
 
     share(prog, rep, "C06", ("R06.3",), "R13.6", "the time coordinate of a record is the clock's own conversion at the time of writing", 2)
+    rep.rule("R13.7", "instants are never converted to a unit coarser than the clock's seconds", 4)
+    instant_resolution(prog, rep, "R13.7")
+    share(prog, rep, "C18", ("R18.6",), "R13.8", "a version-1 configuration hands start, stop, dt and reference to the clock keys they belong to", 3, only=lambda o: o.construct.startswith("time.") or "time_control" in o.construct)
 
 
 
